@@ -198,6 +198,10 @@ def c34(prop, tier, replay):
             for v in naming_vectors():
                 v.update({"seed": pvlib.seed(), "mutations": nmut})
                 f.write(json.dumps(v) + "\n")
+            for nprod in (150, 400, 1000):
+                big = "%start S0\n%%\n" + "".join(f"S{i}: 'a{i}' [ 'o' ] S{i + 1};\n" for i in range(nprod)) + f"S{nprod}: 'z';\n"
+                f.write(json.dumps({"par": big, "id": f"chain{nprod}", "seed": pvlib.seed(), "mutations": 0}) + "\n")
+            spaces.append({"space": "chain grammars with 150 / 400 / 1000 productions", "vectors": 3})
             dv, _ = p_misc.decl_vectors(prop, tier)
             for j, v in enumerate(dv):
                 v.update({"seed": pvlib.seed() + j, "mutations": 1 if tier == "quick" else 6})
@@ -261,7 +265,8 @@ REGISTRY = {"C29": c29, "C34": c34}
 # ------------------------------------------------------------------------------------------------
 # C30: requests never crash the server
 # ------------------------------------------------------------------------------------------------
-PIECE = {"<cr>": "\r", "<lf>": "\n", "<e>": "é", "<u>": "😀", "<S>": "%start S\n", "<P>": "%%\nS: 'a';\n", "<B>": "S: { A } [ 'b' ];\n"}
+PIECE = {"<cr>": "\r", "<lf>": "\n", "<e>": "é", "<u>": "😀", "<S>": "%start S\n", "<P>": "%%\nS: 'a';\n", "<B>": "S: { A } [ 'b' ];\n",
+         "<M>": "%%\nS: \"é😀\" Sb /* é */ Sb;\nSb: \"ää\" Sc;\nSc: \"äää\";\n"}
 
 
 def utf16_len(s):
@@ -344,7 +349,7 @@ def c30(prop, tier, replay):
         case = json.load(open(replay))["case"]
         texts = [(case["id"], case["text"])]
     else:
-        pieces = {"a", "<e>", "<u>", "<cr>", "<lf>", ":", "<S>", "<P>", "<B>"}
+        pieces = {"a", "<e>", "<u>", "<cr>", "<lf>", ":", "<S>", "<P>", "<B>", "<M>"}
         g = tlc_gen("Gen_Text", {"Pieces": pieces, "MaxLen": 3 if tier == "quick" else 4}, ["Emit"], 1, vec_path, spec="Spec",
                     run_prefix=f"{prop}_{tier}", no_shard_consts=True)
         for i, v in enumerate(read_ndjson(vec_path)):
@@ -367,7 +372,7 @@ def c30(prop, tier, replay):
                               f"{v['method']} at {json.dumps(v['params'].get('position') or v['params'].get('range'))} on {v['text'][:80]!r}: {v['outcome'][:300]}")
     rc = rep.finish()
     cov = {"evaluations": nreq, "distinct_nontrivial": len(texts),
-           "rule": "texts: every sequence of up to 3 (4) pieces over {a, é (2 bytes), 😀 (4 bytes, 2 UTF-16 units), CR, LF, ':', and three PAR fragments} "
+           "rule": "texts: every sequence of up to 3 (4) pieces over {a, é (2 bytes), 😀 (4 bytes, 2 UTF-16 units), CR, LF, ':', and four PAR fragments, one with multi-byte characters in front of identifiers on the same line} "
                    "enumerated by Gen_Text.tla, plus repository grammars; for each text the real parol-ls (LSP over stdio) is asked documentSymbol, "
                    "formatting and - at every line 0..lines and every UTF-16 column 0..longest line+2 - hover, definition, prepareRename, rename and "
                    "codeAction; every request must be answered (result, null or error response). A missing answer / dead process is a violation "
